@@ -529,3 +529,420 @@ theorem pres_heartbeat (s : Sys) (id : String) (running events now : Nat) (c : C
       | policy => exact h
 
 end Varpulis.RaftSync
+namespace Varpulis.RaftSync
+
+/-- operations whose proposals do not touch the replicated workers and whose local update keeps a
+projection of the workers: the worker components are framed -/
+theorem workers_framed (c : Comp) (l l' : LState) (r r' : RState) (hr : r'.workers = r.workers)
+    (hs : proj LWorker.static l'.workers = proj LWorker.static l.workers)
+    (ht : proj LWorker.status l'.workers = proj LWorker.status l.workers)
+    (hc : c = .wset ∨ c = .status) (h : CompSync c l r) : CompSync c l' r' := by
+  rcases hc with rfl | rfl
+  · exact wset_frame l l' r r' hs (by rw [hr]) h
+  · exact status_frame l l' r r' ht (by rw [hr]) h
+
+theorem pres_deploy (s : Sys) (g name : String) (rs : List DRes) (c : Comp) (hc : c ≠ .book) (h : CompSync c s.l s.r) :
+    CompSync c (step s (.deploy g name rs)).l (step s (.deploy g name rs)).r := by
+  simp only [step, stepL, emits]
+  obtain ⟨grp, hg⟩ := commitDeploy_groups s.l g name rs
+  have hget : (commitDeploy s.l g name rs).groups.get g = some grp := by rw [hg, AMap.get_put]; simp
+  simp only [hget, applyAll_cons, applyAll_nil, applyCmd]
+  cases c with
+  | book => exact absurd rfl hc
+  | wset => exact workers_framed .wset _ _ _ _ rfl (commitDeploy_proj _ bookFree_static ..) (commitDeploy_proj _ bookFree_status ..) (.inl rfl) h
+  | status => exact workers_framed .status _ _ _ _ rfl (commitDeploy_proj _ bookFree_static ..) (commitDeploy_proj _ bookFree_status ..) (.inr rfl) h
+  | groups =>
+    intro k
+    simp only [hg, AMap.get_put]
+    by_cases hk : k = g
+    · simp [hk]
+    · simpa [hk] using h k
+  | conns => exact h
+  | policy => exact h
+
+theorem pres_teardown (s : Sys) (g : String) (ts : List (String × String)) (c : Comp) (hc : c ≠ .book) (h : CompSync c s.l s.r) :
+    CompSync c (step s (.teardown g ts)).l (step s (.teardown g ts)).r := by
+  simp only [step, stepL, emits]
+  by_cases hg : (s.l.groups.get g).isSome = true
+  · simp only [hg, ↓reduceIte, applyAll_cons, applyAll_nil, applyCmd]
+    cases c with
+    | book => exact absurd rfl hc
+    | wset => exact workers_framed .wset _ _ _ _ rfl (commitTeardown_proj _ bookFree_static ..) (commitTeardown_proj _ bookFree_status ..) (.inl rfl) h
+    | status => exact workers_framed .status _ _ _ _ rfl (commitTeardown_proj _ bookFree_static ..) (commitTeardown_proj _ bookFree_status ..) (.inr rfl) h
+    | groups =>
+      intro k
+      simp only [commitTeardown, AMap.get_del]
+      by_cases hk : k = g
+      · simp [hk]
+      · simpa [hk] using h k
+    | conns => exact h
+    | policy => exact h
+  · simp only [hg, Bool.false_eq_true, ↓reduceIte, applyAll_nil]
+    exact h
+
+theorem commitMigrate_groups_other (l : LState) (p : MigPlan) (pid : String) (ok : Bool) (g : String) (h : g ≠ p.g) :
+    (commitMigrate l p pid ok).groups.get g = l.groups.get g := by
+  unfold commitMigrate; split
+  · exact applyMigration_groups_other l p pid g h
+  · rfl
+
+theorem commitMigrate_groups_isSome (l : LState) (p : MigPlan) (pid : String) (ok : Bool) (g : String) :
+    ((commitMigrate l p pid ok).groups.get g).isSome = (l.groups.get g).isSome := by
+  unfold commitMigrate; split
+  · exact applyMigration_groups_isSome l p pid g
+  · rfl
+
+theorem commitMigrate_rest (l : LState) (p : MigPlan) (pid : String) (ok : Bool) :
+    (commitMigrate l p pid ok).connectors = l.connectors ∧ (commitMigrate l p pid ok).policy = l.policy := by
+  unfold commitMigrate; split <;> exact ⟨rfl, rfl⟩
+
+theorem commitMigrate_false (l : LState) (p : MigPlan) (pid : String) : commitMigrate l p pid false = l := by
+  simp [commitMigrate]
+
+theorem pres_migrate (s : Sys) (p : MigPlan) (pid : String) (ok : Bool) (c : Comp) (hc : c ≠ .book) (h : CompSync c s.l s.r) :
+    CompSync c (step s (.migrate p pid ok)).l (step s (.migrate p pid ok)).r := by
+  simp only [step, stepL, emits]
+  cases ok with
+  | false => simp only [commitMigrate_false, Bool.false_eq_true, ↓reduceIte, applyAll_nil]; exact h
+  | true =>
+    simp only [↓reduceIte]
+    have hw : ∀ cs : List Cmd, (∀ c ∈ cs, ∃ n grp, c = .groupUpdated n grp) → (applyAll s.r cs).workers = s.r.workers := by
+      intro cs hcs
+      exact applyAll_inv (·.workers) cs (fun c hc s => by obtain ⟨n, grp, rfl⟩ := hcs c hc; rfl) s.r
+    cases hg : (commitMigrate s.l p pid true).groups.get p.g with
+    | none =>
+      simp only [applyAll_nil]
+      cases c with
+      | book => exact absurd rfl hc
+      | wset => exact workers_framed .wset _ _ _ _ rfl (commitMigrate_proj _ bookFree_static ..) (commitMigrate_proj _ bookFree_status ..) (.inl rfl) h
+      | status => exact workers_framed .status _ _ _ _ rfl (commitMigrate_proj _ bookFree_static ..) (commitMigrate_proj _ bookFree_status ..) (.inr rfl) h
+      | groups =>
+        intro k
+        by_cases hk : k = p.g
+        · subst hk
+          have h1 := commitMigrate_groups_isSome s.l p pid true p.g
+          rw [hg] at h1
+          have h2 : s.l.groups.get p.g = none := by
+            cases hx : s.l.groups.get p.g with
+            | none => rfl
+            | some _ => simp [hx] at h1
+          rw [hg, ← h p.g, h2]
+        · rw [commitMigrate_groups_other _ _ _ _ _ hk]; exact h k
+      | conns => intro k; rw [(commitMigrate_rest ..).1]; exact h k
+      | policy => simp only [CompSync]; rw [(commitMigrate_rest ..).2]; exact h
+    | some grp =>
+      simp only [applyAll_cons, applyAll_nil, applyCmd]
+      cases c with
+      | book => exact absurd rfl hc
+      | wset => exact workers_framed .wset _ _ _ _ rfl (commitMigrate_proj _ bookFree_static ..) (commitMigrate_proj _ bookFree_status ..) (.inl rfl) h
+      | status => exact workers_framed .status _ _ _ _ rfl (commitMigrate_proj _ bookFree_static ..) (commitMigrate_proj _ bookFree_status ..) (.inr rfl) h
+      | groups =>
+        intro k
+        simp only [AMap.get_put]
+        by_cases hk : k = p.g
+        · simp [hk, hg]
+        · simp only [hk, ↓reduceIte]; rw [commitMigrate_groups_other _ _ _ _ _ hk]; exact h k
+      | conns => intro k; rw [(commitMigrate_rest ..).1]; exact h k
+      | policy => simp only [CompSync]; rw [(commitMigrate_rest ..).2]; exact h
+
+theorem pres_rebalanceApi (s : Sys) (ms : List Mig) (c : Comp) (hc : c ≠ .book) (h : CompSync c s.l s.r) :
+    CompSync c (step s (.rebalanceApi ms)).l (step s (.rebalanceApi ms)).r := by
+  simp only [step, stepL, emits]
+  cases hb : (migrateAll s.l ms).2 with
+  | false =>
+    simp only [Bool.false_eq_true, ↓reduceIte, applyAll_nil, migrateAll_false s.l ms hb]
+    cases c <;> first | exact h | exact absurd rfl hc
+  | true =>
+    simp only [↓reduceIte, applyAll_groupsUpdated]
+    cases c with
+    | book => exact absurd rfl hc
+    | wset => exact workers_framed .wset _ _ _ _ rfl (migrateAll_proj _ bookFree_static ..) (migrateAll_proj _ bookFree_status ..) (.inl rfl) h
+    | status => exact workers_framed .status _ _ _ _ rfl (migrateAll_proj _ bookFree_static ..) (migrateAll_proj _ bookFree_status ..) (.inr rfl) h
+    | groups =>
+      intro k
+      simp only [AMap.get_foldl_put_reverse]
+      by_cases hk : k ∈ (migrateAll s.l ms).1.groups.keys
+      · simp [hk]
+      · simp only [hk, ↓reduceIte]
+        have h1 := AMap.get_eq_none_of_not_mem _ k hk
+        have h2 := migrateAll_groups_isSome s.l ms k
+        rw [h1] at h2 ⊢
+        have h3 : s.l.groups.get k = none := by
+          cases hx : s.l.groups.get k with
+          | none => rfl
+          | some _ => simp [hx] at h2
+        rw [← h k, h3]
+    | conns => intro k; simp only; rw [(migrateAll_rest ..).1]; exact h k
+    | policy => simp only [CompSync]; rw [(migrateAll_rest ..).2.1]; exact h
+
+end Varpulis.RaftSync
+namespace Varpulis.RaftSync
+
+theorem pres_drain (s : Sys) (id : String) (ms : List Mig) (c : Comp)
+    (hc : c = .status ∨ c = .conns ∨ c = .policy) (h : CompSync c s.l s.r) :
+    CompSync c (step s (.drain id ms)).l (step s (.drain id ms)).r := by
+  simp only [step, stepL, emits, applyAll_nil]
+  cases hw : s.l.workers.get id with
+  | none => exact h
+  | some w0 =>
+    simp only
+    by_cases hd : w0.status = .draining
+    · simp only [hd, ↓reduceIte]; exact h
+    · simp only [hd, ↓reduceIte]
+      rcases hc with rfl | rfl | rfl
+      · intro k w' e hw' he
+        simp only [AMap.get_del] at hw'
+        by_cases hk : k = id
+        · simp [hk] at hw'
+        · simp only [hk, ↓reduceIte] at hw'
+          have h1 := congrFun (migrateAll_proj LWorker.status bookFree_status
+            { s.l with workers := s.l.workers.upd id fun w => { w with status := .draining } } ms) k
+          simp only [proj, hw', Option.map_some, AMap.get_upd, hk, ↓reduceIte] at h1
+          cases hx : s.l.workers.get k with
+          | none => simp [hx] at h1
+          | some w =>
+            simp only [hx, Option.map_some, Option.some.injEq] at h1
+            rw [h1]; exact h k w e hx he
+      · intro k; simp only; rw [(migrateAll_rest ..).1]; exact h k
+      · simp only [CompSync]; rw [(migrateAll_rest ..).2.1]; exact h
+
+theorem pres_connCreate (s : Sys) (n b : String) (v : Bool) (c : Comp) (h : CompSync c s.l s.r) :
+    CompSync c (step s (.connCreate n b v)).l (step s (.connCreate n b v)).r := by
+  simp only [step, stepL, emits]
+  by_cases hx : ((s.l.connectors.get n).isSome || !v) = true
+  · simp only [hx, ↓reduceIte, applyAll_nil]; exact h
+  · simp only [hx, Bool.false_eq_true, ↓reduceIte, applyAll_cons, applyAll_nil, applyCmd]
+    cases c with
+    | conns =>
+      intro k; simp only [AMap.get_put]
+      by_cases hk : k = n
+      · simp [hk]
+      · simpa [hk] using h k
+    | _ => exact h
+
+theorem pres_connUpdate (s : Sys) (n b : String) (v : Bool) (c : Comp) (h : CompSync c s.l s.r) :
+    CompSync c (step s (.connUpdate n b v)).l (step s (.connUpdate n b v)).r := by
+  simp only [step, stepL, emits]
+  by_cases hx : ((s.l.connectors.get n).isNone || !v) = true
+  · simp only [hx, ↓reduceIte, applyAll_nil]; exact h
+  · simp only [hx, Bool.false_eq_true, ↓reduceIte, applyAll_cons, applyAll_nil, applyCmd]
+    cases c with
+    | conns =>
+      intro k; simp only [AMap.get_put]
+      by_cases hk : k = n
+      · simp [hk]
+      · simpa [hk] using h k
+    | _ => exact h
+
+theorem pres_connDelete (s : Sys) (n : String) (c : Comp) (h : CompSync c s.l s.r) :
+    CompSync c (step s (.connDelete n)).l (step s (.connDelete n)).r := by
+  simp only [step, stepL, emits, applyAll_cons, applyAll_nil, applyCmd]
+  cases c with
+  | conns =>
+    intro k; simp only [AMap.get_del]
+    by_cases hk : k = n
+    · simp [hk]
+    · simpa [hk] using h k
+  | _ => exact h
+
+/-! ### `sync_from_raft` -/
+
+theorem sync_workers_get (l : LState) (r : RState) (now : Nat) (k : String) :
+    (sync l r now).workers.get k =
+      (r.workers.get k).map fun e => match l.workers.get k with
+        | some w => mergeWorker w e now
+        | none => freshWorker e now := by
+  simp only [sync]
+  exact AMap.get_mapVals r.workers (fun k e => match l.workers.get k with
+        | some w => mergeWorker w e now
+        | none => freshWorker e now) k
+
+theorem mergeWorker_static (w : LWorker) (e : RWorker) (now : Nat) : (mergeWorker w e now).static = (w.addr, e.cpu, e.maxP) := by
+  unfold mergeWorker; split <;> rfl
+
+theorem mergeWorker_book (w : LWorker) (e : RWorker) (now : Nat) : (mergeWorker w e now).book = e.book := by
+  unfold mergeWorker; split <;> rfl
+
+theorem mergeWorker_status (w : LWorker) (e : RWorker) (now : Nat) :
+    (mergeWorker w e now).status =
+      if parseStatus e.status = .unhealthy ∨ parseStatus e.status = .draining then parseStatus e.status else w.status := by
+  unfold mergeWorker; split <;> simp_all
+
+/-- `sync_from_raft` keeps every component synchronised (and the three replaced ones become so) -/
+theorem pres_tickSync (s : Sys) (now : Nat) (c : Comp) (h : CompSync c s.l s.r) :
+    CompSync c (step s (.tickSync now)).l (step s (.tickSync now)).r := by
+  simp only [step, stepL, emits, applyAll_nil]
+  cases c with
+  | wset =>
+    intro k
+    rw [sync_workers_get]
+    have := h k
+    cases he : s.r.workers.get k with
+    | none => simp
+    | some e =>
+      cases hw : s.l.workers.get k with
+      | none => simp [freshWorker, LWorker.static, RWorker.static]
+      | some w =>
+        simp only [he, hw, Option.map_some, Option.some.injEq] at this ⊢
+        rw [mergeWorker_static]
+        simp only [LWorker.static, RWorker.static, Prod.mk.injEq] at this ⊢
+        exact ⟨this.1, trivial⟩
+  | status =>
+    intro k w' e hw' he
+    rw [sync_workers_get, he] at hw'
+    simp only [Option.map_some, Option.some.injEq] at hw'
+    subst hw'
+    cases hw : s.l.workers.get k with
+    | none => rfl
+    | some w =>
+      simp only [mergeWorker_status]
+      split
+      · rfl
+      · exact h k w e hw he
+  | book =>
+    intro k w' e hw' he
+    rw [sync_workers_get, he] at hw'
+    simp only [Option.map_some, Option.some.injEq] at hw'
+    subst hw'
+    cases hw : s.l.workers.get k with
+    | none => exact ⟨rfl, rfl, rfl⟩
+    | some w =>
+      have := mergeWorker_book w e now
+      simp only [LWorker.book, RWorker.book, Prod.mk.injEq] at this
+      exact this
+  | groups => intro k; rfl
+  | conns => intro k; rfl
+  | policy => rfl
+
+theorem sweepWorker_static (t now : Nat) (w : LWorker) : (sweepWorker t now w).static = w.static := by
+  unfold sweepWorker; split <;> rfl
+theorem sweepWorker_book (t now : Nat) (w : LWorker) : (sweepWorker t now w).book = w.book := by
+  unfold sweepWorker; split <;> rfl
+
+theorem mem_sweepMarked (l : LState) (now : Nat) (k : String) (w : LWorker) (hw : l.workers.get k = some w) :
+    k ∈ sweepMarked l now ↔ (w.status = .ready ∧ now - w.lastHb > l.timeout) := by
+  simp only [sweepMarked, List.mem_filter, mem_dedup, hw, decide_eq_true_eq]
+  exact ⟨fun h => h.2, fun h => ⟨AMap.mem_keys_of_get _ _ _ hw, h⟩⟩
+
+theorem pres_tickSweep (s : Sys) (now : Nat) (c : Comp) (h : CompSync c s.l s.r) :
+    CompSync c (step s (.tickSweep now)).l (step s (.tickSweep now)).r := by
+  simp only [step, stepL, emits, applyAll_status]
+  cases c with
+  | wset =>
+    refine wset_frame _ _ _ _ ?_ ?_ h
+    · exact proj_mapVals LWorker.static s.l.workers (fun _ w => sweepWorker s.l.timeout now w) (fun _ w => sweepWorker_static ..)
+    · exact proj_foldl_upd RWorker.static (fun i : String => i) (fun _ w => { w with status := "unhealthy" }) (fun _ _ => rfl) _ _
+  | book =>
+    refine book_frame _ _ _ _ ?_ ?_ h
+    · exact proj_mapVals LWorker.book s.l.workers (fun _ w => sweepWorker s.l.timeout now w) (fun _ w => sweepWorker_book ..)
+    · exact proj_foldl_upd RWorker.book (fun i : String => i) (fun _ w => { w with status := "unhealthy" }) (fun _ _ => rfl) _ _
+  | status =>
+    intro k w' e' hw' he'
+    have hm := AMap.get_mapVals s.l.workers (fun _ w => sweepWorker s.l.timeout now w) k
+    simp only at hw'
+    rw [hm] at hw'
+    simp only [AMap.get_foldl_upd _ (fun w : RWorker => { w with status := "unhealthy" }) (fun _ => rfl)] at he'
+    cases hw : s.l.workers.get k with
+    | none => simp [hw] at hw'
+    | some w =>
+      simp only [hw, Option.map_some, Option.some.injEq] at hw'
+      subst hw'
+      by_cases hcnd : w.status = .ready ∧ now - w.lastHb > s.l.timeout
+      · have : k ∈ sweepMarked s.l now := (mem_sweepMarked s.l now k w hw).2 hcnd
+        simp only [this, ↓reduceIte, Option.map_eq_some_iff] at he'
+        obtain ⟨e, _, rfl⟩ := he'
+        simp only [sweepWorker, hcnd, and_self, ↓reduceIte]
+        exact parseStatus_unhealthy.symm
+      · have : k ∉ sweepMarked s.l now := fun hx => hcnd ((mem_sweepMarked s.l now k w hw).1 hx)
+        simp only [this, ↓reduceIte] at he'
+        simp only [sweepWorker, hcnd, ↓reduceIte]
+        exact h k w e' hw he'
+  | groups => exact h
+  | conns => exact h
+  | policy => exact h
+
+theorem pres_migsOnly (s : Sys) (ms : List Mig) (c : Comp) (hc : c = .wset ∨ c = .status ∨ c = .conns ∨ c = .policy)
+    (h : CompSync c s.l s.r) : CompSync c (migrateAll s.l ms).1 s.r := by
+  rcases hc with rfl | rfl | rfl | rfl
+  · exact workers_framed .wset _ _ _ _ rfl (migrateAll_proj _ bookFree_static ..) (migrateAll_proj _ bookFree_status ..) (.inl rfl) h
+  · exact workers_framed .status _ _ _ _ rfl (migrateAll_proj _ bookFree_static ..) (migrateAll_proj _ bookFree_status ..) (.inr rfl) h
+  · intro k; rw [(migrateAll_rest ..).1]; exact h k
+  · simp only [CompSync]; rw [(migrateAll_rest ..).2.1]; exact h
+
+theorem pres_tickFailover (s : Sys) (id : String) (ms : List Mig) (c : Comp) (hc : c = .wset ∨ c = .status ∨ c = .conns ∨ c = .policy)
+    (h : CompSync c s.l s.r) : CompSync c (step s (.tickFailover id ms)).l (step s (.tickFailover id ms)).r := by
+  simp only [step, stepL, emits, applyAll_nil]; exact pres_migsOnly s ms c hc h
+
+theorem pres_tickRebalance (s : Sys) (ms : List Mig) (c : Comp) (hc : c = .wset ∨ c = .status ∨ c = .conns ∨ c = .policy)
+    (h : CompSync c s.l s.r) : CompSync c (step s (.tickRebalance ms)).l (step s (.tickRebalance ms)).r := by
+  simp only [step, stepL, emits, applyAll_nil]
+  have := pres_migsOnly s ms c hc h
+  rcases hc with rfl | rfl | rfl | rfl <;> exact this
+
+theorem pres_tickReconcile (s : Sys) (rd : List (String × String)) (c : Comp) (hc : c ≠ .book) (h : CompSync c s.l s.r) :
+    CompSync c (step s (.tickReconcile rd)).l (step s (.tickReconcile rd)).r := by
+  simp only [step, stepL, emits]
+  generalize hcs : (List.filterMap (fun w => Option.map (fun x => Cmd.workerPipelinesUpdated w x.assigned)
+      (AMap.get (List.foldl (fun ws t => ws.upd t.1 (LWorker.push t.2)) s.l.workers rd) w)) (dedup (rd.map (·.1)))) = cs
+  have hall : ∀ c ∈ cs, ∃ w a, c = Cmd.workerPipelinesUpdated w a := by
+    intro c hc
+    rw [← hcs] at hc
+    simp only [List.mem_filterMap, Option.map_eq_some_iff] at hc
+    obtain ⟨w, _, x, _, rfl⟩ := hc
+    exact ⟨w, x.assigned, rfl⟩
+  have hstat : proj RWorker.static (applyAll s.r cs).workers = proj RWorker.static s.r.workers :=
+    applyAll_inv (fun s => proj RWorker.static s.workers) cs (fun c hc s => by
+      obtain ⟨w, a, rfl⟩ := hall c hc
+      simp only [applyCmd]
+      exact proj_upd RWorker.static _ _ _ (fun _ => rfl)) s.r
+  have hst : proj RWorker.st (applyAll s.r cs).workers = proj RWorker.st s.r.workers :=
+    applyAll_inv (fun s => proj RWorker.st s.workers) cs (fun c hc s => by
+      obtain ⟨w, a, rfl⟩ := hall c hc
+      simp only [applyCmd]
+      exact proj_upd RWorker.st _ _ _ (fun _ => rfl)) s.r
+  have hg : (applyAll s.r cs).groups = s.r.groups :=
+    applyAll_inv (·.groups) cs (fun c hc s => by obtain ⟨w, a, rfl⟩ := hall c hc; rfl) s.r
+  have hcn : (applyAll s.r cs).connectors = s.r.connectors :=
+    applyAll_inv (·.connectors) cs (fun c hc s => by obtain ⟨w, a, rfl⟩ := hall c hc; rfl) s.r
+  have hp : (applyAll s.r cs).policy = s.r.policy :=
+    applyAll_inv (·.policy) cs (fun c hc s => by obtain ⟨w, a, rfl⟩ := hall c hc; rfl) s.r
+  have hls : ∀ {α : Type} (P : LWorker → α), BookFree P →
+      proj P (List.foldl (fun ws t => ws.upd t.1 (LWorker.push t.2)) s.l.workers rd) = proj P s.l.workers :=
+    fun P hP => proj_foldl_upd P (fun t : String × String => t.1) (fun t => LWorker.push t.2) (fun t w => hP.1 t.2 w) rd _
+  cases c with
+  | book => exact absurd rfl hc
+  | wset => exact wset_frame _ _ _ _ (hls _ bookFree_static) hstat h
+  | status => exact status_frame _ _ _ _ (hls _ bookFree_status) hst h
+  | groups => intro k; simp only [hg]; exact h k
+  | conns => intro k; simp only [hcn]; exact h k
+  | policy => simp only [CompSync, hp]; exact h
+
+theorem pres_startupPolicy (s : Sys) (p : Option String) (c : Comp) (hc : c ≠ .policy) (h : CompSync c s.l s.r) :
+    CompSync c (step s (.startupPolicy p)).l (step s (.startupPolicy p)).r := by
+  simp only [step, stepL, emits, applyAll_nil]
+  cases c <;> first | exact h | exact absurd rfl hc
+
+/-- **every cell outside `knownCell`**: the operation keeps the component synchronised -/
+theorem step_preserves (s : Sys) (op : Op) (c : Comp) (hk : knownCell op.kind c = none) (h : CompSync c s.l s.r) :
+    CompSync c (step s op).l (step s op).r := by
+  cases op with
+  | register id addr cpu running maxP now => exact pres_register s id addr cpu running maxP now c h
+  | heartbeat id running events now =>
+    exact pres_heartbeat s id running events now c (by rintro rfl; simp [knownCell, Op.kind] at hk) h
+  | deregister id => exact pres_deregister s id c h
+  | deploy g name rs => exact pres_deploy s g name rs c (by rintro rfl; simp [knownCell, Op.kind] at hk) h
+  | teardown g ts => exact pres_teardown s g ts c (by rintro rfl; simp [knownCell, Op.kind] at hk) h
+  | migrate p pid ok => exact pres_migrate s p pid ok c (by rintro rfl; simp [knownCell, Op.kind] at hk) h
+  | rebalanceApi ms => exact pres_rebalanceApi s ms c (by rintro rfl; simp [knownCell, Op.kind] at hk) h
+  | drain id ms => exact pres_drain s id ms c (by cases c <;> simp [knownCell, Op.kind] at hk ⊢) h
+  | connCreate n b v => exact pres_connCreate s n b v c h
+  | connUpdate n b v => exact pres_connUpdate s n b v c h
+  | connDelete n => exact pres_connDelete s n c h
+  | tickSync now => exact pres_tickSync s now c h
+  | tickSweep now => exact pres_tickSweep s now c h
+  | tickFailover id ms => exact pres_tickFailover s id ms c (by cases c <;> simp [knownCell, Op.kind] at hk ⊢) h
+  | tickReconcile rd => exact pres_tickReconcile s rd c (by rintro rfl; simp [knownCell, Op.kind] at hk) h
+  | tickRebalance ms => exact pres_tickRebalance s ms c (by cases c <;> simp [knownCell, Op.kind] at hk ⊢) h
+  | startupPolicy p => exact pres_startupPolicy s p c (by rintro rfl; simp [knownCell, Op.kind] at hk) h
+
+end Varpulis.RaftSync
